@@ -106,13 +106,22 @@ def counterAfter (c : Config) (past : List In) : Nat := min (sinceStart past) (c
 theorem counterAfter_nil (c : Config) : counterAfter c [] = init := by
   simp [counterAfter, sinceStart, init]
 
+theorem next_no_start (c : Config) (n : Nat) :
+    next c (min n (counterMax c + 1)) false = min (n + 1) (counterMax c + 1) := by
+  unfold next
+  simp only [Bool.false_eq_true, if_false]
+  by_cases h : min n (counterMax c + 1) < counterMax c + 1
+  · rw [if_pos h]; omega
+  · rw [if_neg h]; omega
+
 theorem next_counter (c : Config) (past : List In) (x : In) :
     next c (counterAfter c past) x.start = counterAfter c (x :: past) := by
-  unfold next counterAfter sinceStart
-  cases x.start
-  · simp only [Bool.false_eq_true, if_false]
-    split <;> omega
-  · simp
+  cases hx : x.start
+  · have e : sinceStart (x :: past) = sinceStart past + 1 := by simp [sinceStart, hx]
+    unfold counterAfter
+    rw [e]; exact next_no_start c _
+  · have e : sinceStart (x :: past) = 0 := by simp [sinceStart, hx]
+    simp [next, counterAfter, e]
 
 /-- Every table value lies below the saturation point, so saturation never hides or fakes a strobe. -/
 theorem beq_min (e v k : Nat) (h : v < k) : (min e k == v) = (e == v) := by
